@@ -28,7 +28,7 @@ func (e *Engine) newCtx(fi *FuncInfo, ct *Contract) *FnCtx {
 	c := &FnCtx{E: e, Fn: fi, C: ct, declSet: map[string]bool{}, heapSort: map[string]string{}, heapType: map[string]types.Type{},
 		typeTags: map[string]int{}, Opaque: map[string]bool{}, Inlined: map[string]bool{}, UsedContracts: map[string]bool{},
 		Trusted: map[string]bool{}, safeN: map[string]int{}, paramVals: map[string]Val{}, globalsBusy: map[types.Object]bool{},
-		callN: map[string]int{}, recFns: map[string]bool{}, recInfos: map[string]*recInfo{}}
+		callN: map[string]int{}, recFns: map[string]bool{}, recInfos: map[string]*recInfo{}, siteN: map[string]int{}}
 	c.frames = []*inlineFrame{{fn: fi, pkg: fi.Pkg, tsubst: map[*types.TypeParam]types.Type{}}}
 	return c
 }
@@ -487,7 +487,8 @@ func (c *FnCtx) checkFrame(exit *State, ct *Contract, postEnv *Env) {
 				exc = append(exc, and(app("<=", app("sl_ptr", r.s.T), "a!f"), app("<", "a!f", app("+", app("sl_ptr", r.s.T), app("*", fmt.Sprint(c.sizeof(el)), app("sl_cap", r.s.T))))))
 			}
 		}
-		exc = append(exc, app(">=", "a!f", "alloc!0"))
+		// fresh objects, and the interior addresses (encoded as -(64*p+id)) of fresh objects
+		exc = append(exc, app(">=", "a!f", "alloc!0"), app("<=", "a!f", app("-", app("*", "64", "alloc!0"))))
 		goal := fmt.Sprintf("(forall ((a!f Int)) (=> (not %s) (= (select %s a!f) (select %s a!f))))", or(exc...), e1, e0)
 		c.oblige(exit, "frame", k, goal, "only the locations in `assigns` change in "+k, false, c.Fn.Decl)
 	}
